@@ -80,7 +80,7 @@ def _plain_digits_or_text(v):
     if type(v) is not str:
         return False
     if v.isascii() and v.isdigit():
-        return True
+        return len(v) <= 9            # TLC integers are 32 bit
     try:
         int(v)
     except (ValueError, TypeError):
@@ -258,6 +258,7 @@ def _view_event(kind, o, name=None, a=None, ret=None):
                     _note(sess, kind, [k[5:].replace("_", "-").lower()])
                 elif k in ("CONTENT_TYPE", "CONTENT_LENGTH"):
                     _note(sess, kind, [k.replace("_", "-").lower()])
+            _note(sess, kind, (), [vs[0] for k, vs in ent if k.startswith("HTTP_") or k in ("CONTENT_TYPE", "CONTENT_LENGTH")])
             objs.append(("Environ", env, _arec(src=ent, form="pairs")))
         if a is not None:
             _note(sess, kind, [C.dec(a["k"])] if a["k"] else [])
